@@ -372,6 +372,11 @@ func runOracle(c *genCase, text string, rep *hv.Report) []oracleResult {
 					rep.Hist("oracle:marks-present")
 				case empty:
 					fail("marks-lost-empty-for_each", fmt.Sprintf("dynamic %q: the marked EMPTY for_each %s leaves no mark %v in the decoded value: %s", d.Type, d.ForEach, m, hv.DumpVal(v1)))
+				case c.Spec.block(d.Type) != nil && (c.Spec.block(d.Type).Kind == kSingle || c.Spec.block(d.Type).Kind == kAttrs):
+					// hcldec.BlockSpec / BlockAttrsSpec never apply the body's value marks
+					// (no prepareBodyVal): a generated block without a marked attribute value
+					// carries nothing
+					fail("marks-lost-single-block-spec", fmt.Sprintf("dynamic %q decoded by BlockSpec/BlockAttrsSpec: the marked for_each %s leaves no mark %v in the decoded value: %s", d.Type, d.ForEach, m, hv.DumpVal(v1)))
 				default:
 					fail("marks-lost", fmt.Sprintf("dynamic %q: the marked for_each %s leaves no mark %v in the decoded value: %s", d.Type, d.ForEach, m, hv.DumpVal(v1)))
 				}
